@@ -374,11 +374,21 @@ struct BoundedHarness
                                                    " bytes not yet released by the consumer (capacity " + std::to_string(g_cfg.cap) + ")");
   }
 
+  // records the producer has published (commit_write): a batching producer (op b = finish_write only) publishes later
+  size_t committed_count{0};
+  bool pending{false};
+  void commit_pending()
+  {
+    committed_count = accepted.size();
+    q->commit_write();
+    pending = false;
+  }
   void producer()
   {
     for (size_t i = 0; i < g_cfg.ops.size(); ++i)
     {
       size_t const n = g_cfg.ops[i].n;
+      bool const batch = g_cfg.ops[i].kind == 'b';
       std::byte* p = nullptr;
       bool first = true;
       while (true)
@@ -387,6 +397,15 @@ struct BoundedHarness
         if (!first) end_wait_attempt();
         if (p || n > g_cfg.cap || W->abort_exec) break;
         first = false;
+        // refused: what was finished so far is committed before waiting for room (nobody could free it otherwise) - but not
+        // in the same breath: the consumer may run between the refusal and that commit and must not see the batch yet
+        if (pending)
+        {
+          sched_point();
+          if (W->abort_exec) return;
+          commit_pending();
+        }
+        if (W->abort_exec) return;
         g_blocked_request = n;
         block_until_newer(q->_atomic_reader_pos.vf_id());
         g_blocked_request = 0;
@@ -399,15 +418,25 @@ struct BoundedHarness
       if (W->abort_exec) return;
       for (size_t k = 0; k < n; ++k) reinterpret_cast<unsigned char*>(p)[k] = pattern(accepted.size(), k, n);
       accepted.push_back(n);
-      if (i % 2 == 0)
+      if (batch)
       {
         q->finish_write(static_cast<IT>(n));
-        q->commit_write();
+        pending = true;
+      }
+      else if (i % 2 == 0)
+      {
+        q->finish_write(static_cast<IT>(n));
+        commit_pending();
       }
       else
+      {
+        committed_count = accepted.size();
+        pending = false;
         q->finish_and_commit_write(static_cast<IT>(n));
+      }
       if (W->abort_exec) return;
     }
+    if (pending) commit_pending();
     producer_done = true;
   }
 
@@ -446,6 +475,12 @@ struct BoundedHarness
         {
           fail("record-not-in-committed-stream", "consumer found a record of length " + std::to_string(n) + " at position " + std::to_string(consumed_records) +
                                                    " but the producer committed " + (consumed_records < accepted.size() ? std::to_string(accepted[consumed_records]) : std::string("nothing")));
+          return;
+        }
+        if (consumed_records >= committed_count)
+        {
+          fail("visible-before-commit", "the consumer was handed record " + std::to_string(consumed_records) + " which the producer has finished but not committed (" +
+                                          std::to_string(committed_count) + " records committed so far)");
           return;
         }
         read_range(p, n);
@@ -519,7 +554,22 @@ struct UnboundedHarness
       POp const& op = g_cfg.ops[i];
       if (op.kind == 's')
       {
+        // (shrink() leaves the current buffer without committing what was finished there - unlike growth - so a batching
+        // producer commits first; the logger commits every record anyway)
+        if (pending)
+        {
+          q->commit_write();
+          pending = false;
+          if (W->abort_exec) return;
+        }
+        size_t const before = q->_producer->bounded_queue.capacity();
         q->shrink(op.n);
+        if (W->abort_exec) return;
+        size_t const after = q->_producer->bounded_queue.capacity();
+        if (after > before)
+          fail("shrink-grew-the-queue", "shrink(" + std::to_string(op.n) + ") moved the producer from a buffer of " + std::to_string(before) + " to one of " + std::to_string(after) + " bytes");
+        else if (after > g_cfg.maxcap && quill::detail::is_power_of_two(g_cfg.maxcap))
+          fail("allocated-beyond-maximum", "after shrink(" + std::to_string(op.n) + ") the producer's buffer has " + std::to_string(after) + " bytes, maximum is " + std::to_string(g_cfg.maxcap));
         if (W->abort_exec) return;
         continue;
       }
@@ -540,6 +590,12 @@ struct UnboundedHarness
         if (p || threw || W->abort_exec) break;
         // refused: growing would exceed the maximum -> the caller blocks until the consumer made room
         first = false;
+        if (pending)
+        {
+          q->commit_write();
+          pending = false;
+          if (W->abort_exec) return;
+        }
         g_blocked_request = n;
         block_until_newer(q->_producer->bounded_queue._atomic_reader_pos.vf_id());
         g_blocked_request = 0;
@@ -565,16 +621,28 @@ struct UnboundedHarness
       if (W->abort_exec) return;
       for (size_t k = 0; k < n; ++k) reinterpret_cast<unsigned char*>(p)[k] = pattern(accepted.size(), k, n);
       accepted.push_back(n);
-      q->finish_and_commit_write(n);
+      if (op.kind == 'b')
+      {
+        // batching producer: finished, committed later (by a commit, or by the queue itself when it switches buffers)
+        q->finish_write(n);
+        pending = true;
+      }
+      else
+      {
+        q->finish_and_commit_write(n);
+        pending = false;
+      }
       if (W->abort_exec) return;
     }
+    if (pending) q->commit_write();
   }
+  bool pending{false};
 
   size_t expected_total() const
   {
     size_t t = 0;
     for (auto const& o : g_cfg.ops)
-      if (o.kind == 'w' && o.n <= g_cfg.maxcap) ++t;
+      if ((o.kind == 'w' || o.kind == 'b') && o.n <= g_cfg.maxcap) ++t;
     return t;
   }
 
